@@ -282,6 +282,7 @@ func genC08(c *Ctx) {
 	}
 	nReq += c08Receiver(c)
 	nReq += c08Ingest(c)
+	nReq += c08Limited(c)
 	// ---- cfg op: URL configuration parser vs. the Lean model ----
 	intVals := []string{"0", "1", "-1", "2", "3", "4", "60", "900", "3600", "3601", "172800", "172801", "68719476736", "68719476737", "-68719476737",
 		"9223372036854775807", "9223372036854775808", "-9223372036854775808", "-9223372036854775809", "007", "-0", "x", "", "1.5", "1e3", "0x10", "1_0", "--1", "-", " 1", "1 "}
@@ -682,6 +683,54 @@ func c08Receiver(c *Ctx) int {
 		from = crash + 1
 	}
 	return len(cases)
+}
+
+// c08Limited: a server with the request limiter switched on (quota, one-second interval, counter log file): requests
+// within the first interval, beyond the quota, and after the interval has ended (the counters are written to the log and
+// restart) all terminate with a deliberate status.
+func c08Limited(c *Ctx) int {
+	dir, err := os.MkdirTemp(c.OutDir, "c08lim")
+	if err != nil {
+		return 0
+	}
+	defer os.RemoveAll(dir)
+	cfg := app.DefaultConfig
+	cfg.VodRoot = vodRoot()
+	cfg.RepDataRoot = ""
+	cfg.TimeoutS = 0
+	cfg.LogLevel = "ERROR"
+	cfg.MaxRequests = 4
+	cfg.ReqLimitInt = 1
+	cfg.ReqLimitLog = filepath.Join(dir, "reqlimit.log")
+	s, err := app.SetupServer(context.Background(), &cfg)
+	if err != nil {
+		c.Count("limited-server-setup-failed")
+		return 0
+	}
+	n := 0
+	urls := []string{"/livesim2/testpic_2s/Manifest.mpd?nowMS=100300", "/livesim2/testpic_2s/V300/init.mp4?nowMS=100300", "/livesim2/tsbd_x/testpic_2s/Manifest.mpd", "/livesim2/nosuch/Manifest.mpd",
+		"/livesim2/testpic_2s/V300/49.m4s?nowMS=100300", "/reqcount", "/vod/testpic_2s/Manifest.mpd"}
+	for round := 0; round < 3; round++ {
+		for _, u := range urls {
+			req := httptest.NewRequest("GET", u, nil)
+			req.RemoteAddr = "203.0.113.9:4711"
+			res := serveGuarded(s.Router, req)
+			n++
+			c.Count("req.limited")
+			line := []string{fmt.Sprintf("# limited-server round=%d GET %s", round, u)}
+			switch {
+			case res.spin:
+				c.Violate("spin", fmt.Sprintf("server with request limiter and counter log, interval %d: the request does not terminate within 4 s", round), line, nil)
+				return n
+			case res.panic != "":
+				c.Violate("panic", "server with request limiter: handler dies of a runtime error ("+res.panic+")", line, nil)
+			case res.code != 200 && res.code != 400 && res.code != 404 && res.code != 429:
+				c.Violate("5xx", fmt.Sprintf("server with request limiter: status %d", res.code), line, nil)
+			}
+		}
+		time.Sleep(1050 * time.Millisecond) // the interval ends
+	}
+	return n
 }
 
 // ---- ingest sessions through the API (child process: a crash of a session goroutine ends the whole process) ----
